@@ -162,6 +162,10 @@ sig_source_stop_sink(const struct video_source_s* source)
     // This is a pretty hacky way of signaling a video stream to stop
     // the sink thread.
     struct video_s* self = containerof(source, struct video_s, source);
+    // The filter was signalled just before and may still have frames to emit
+    // into the sink's queue. Let it finish first, otherwise the sink can do
+    // its final flush and stop the storage device before those frames arrive.
+    thread_join(&self->filter.thread);
     self->sink.is_stopping = 1;
 }
 
